@@ -632,3 +632,264 @@ Proof.
     + apply IH; auto.
 Qed.
 End Main.
+
+(* ================================================================ restriction to the survivors establishes the walk invariant *)
+Section Restrict.
+Variable D : Type.
+Variable K : nat.
+Variable stranded : bool.
+Local Notation graph := (graph D).
+Local Notation gnode := (gnode D).
+Local Notation ext_link := (ext_link D K stranded).
+Local Notation pal_single := (pal_single D K stranded).
+
+Lemma pal_single_seq (n n' : gnode) : n_seq D n' = n_seq D n -> pal_single n' = pal_single n.
+Proof. unfold RecompCheck.pal_single. now intros ->. Qed.
+
+Lemma restrict_nth (g g1 : graph) S x n1 :
+  restrict D K stranded g S = Some g1 -> nth_error g1 x = Some n1 ->
+  exists n, nth_error g x = Some n /\ n_seq D n1 = n_seq D n /\ n_data D n1 = n_data D n /\ n_exts D n1 < 256 /\
+    forall d b, In b bases4 -> e_has_ext (n_exts D n1) (dirb d) b = keeps D K stranded g (Some S) x d b.
+Proof.
+  unfold restrict. intros Hr Hn1. destruct (fix_exts_spec D K stranded g (Some S)) as (g' & Hg' & Hlen & _ & Hsp).
+  assert (g' = g1) by congruence. subst g'.
+  assert (Hx : (x < length g)%nat) by (rewrite <- Hlen; apply nth_error_Some; congruence).
+  destruct (nth_error g x) as [n|] eqn:En; [|apply nth_error_None in En; lia].
+  destruct (Hsp x n En) as (e & He & Hlt & Hb). rewrite Hn1 in He. injection He as ->.
+  exists n. cbn. auto.
+Qed.
+
+Lemma ext_link_restrict (g g1 : graph) S x d b :
+  restrict D K stranded g S = Some g1 -> In b bases4 ->
+  ext_link g1 x d b = if keeps D K stranded g (Some S) x d b then ext_link g x d b else None.
+Proof.
+  intros Hr Hb. pose proof Hr as Hr'. unfold restrict in Hr'.
+  destruct (fix_exts_spec D K stranded g (Some S)) as (g' & Hg' & Hlen & Hseq & Hsp).
+  assert (g' = g1) by congruence. subst g'.
+  unfold RecompCheck.ext_link at 1. destruct (nth_error g1 x) as [n1|] eqn:En1.
+  - destruct (restrict_nth g g1 S x n1 Hr En1) as (n & Hn & Hs & _ & _ & Hh). rewrite (Hh d b Hb).
+    destruct (keeps D K stranded g (Some S) x d b) eqn:Ek; [|reflexivity].
+    unfold keeps in Ek. unfold RecompCheck.ext_link in *. rewrite Hn in *.
+    destruct (e_has_ext (n_exts D n) (dirb d) b); [|discriminate]. rewrite Hs. now apply find_link_seqs.
+  - assert (nth_error g x = None). { apply nth_error_None. rewrite <- Hlen. now apply nth_error_None. }
+    unfold keeps, RecompCheck.ext_link. rewrite H. reflexivity.
+Qed.
+
+Theorem restrict_winv (g g1 : graph) S :
+  rvalid D K stranded g -> (forall x, In x S -> (x < length g)%nat) ->
+  restrict D K stranded g S = Some g1 -> winv D K stranded g1 S.
+Proof.
+  intros (Hok & _ & _ & Hpal & _ & Hsym) HS Hr.
+  assert (Hlen : length g1 = length g).
+  { unfold restrict in Hr. destruct (fix_exts_spec D K stranded g (Some S)) as (g' & Hg' & Hlen & _). congruence. }
+  constructor.
+  - apply Forall_forall. intros n1 Hin. apply In_nth_error in Hin. destruct Hin as [x Hx].
+    destruct (restrict_nth g g1 S x n1 Hr Hx) as (n & Hn & Hs & _ & Hlt & _).
+    destruct (node_ok_nth D K g x n Hok Hn) as (H1 & H2 & _). unfold node_ok. rewrite Hs. auto.
+  - intros Es n1 d Hin Hp. apply In_nth_error in Hin. destruct Hin as [x Hx].
+    destruct (restrict_nth g g1 S x n1 Hr Hx) as (n & Hn & Hs & _). rewrite Hs in *.
+    eapply Hpal; eauto. eapply nth_error_In; eauto.
+  - intros x d b n1 Hn1 Hb Hh.
+    destruct (restrict_nth g g1 S x n1 Hr Hn1) as (n & Hn & Hs & _ & _ & Hk). rewrite (Hk d b Hb) in Hh.
+    rewrite (ext_link_restrict g g1 S x d b Hr Hb), Hh. unfold keeps in Hh.
+    destruct (ext_link g x d b) as [[[y t] f]|]; [|discriminate]. exists y, t, f. split; auto.
+    cbn in Hh. now apply mem_nat_In.
+  - intros x d b y t f n1 m1 Hx Hn1 Hm1 Hb He.
+    rewrite (ext_link_restrict g g1 S x d b Hr Hb) in He.
+    destruct (keeps D K stranded g (Some S) x d b); [|discriminate].
+    destruct (restrict_nth g g1 S x n1 Hr Hn1) as (n & Hn & Hs & _).
+    destruct (restrict_nth g g1 S y m1 Hr Hm1) as (m & Hm & Hsm & _).
+    destruct (Hsym x d b y t f n m Hn Hm Hb He) as (t' & b' & d' & f' & Hb' & He' & Ht' & Hd').
+    exists t', b', d', f'. split; auto. split.
+    + rewrite (ext_link_restrict g g1 S y t' b' Hr Hb'). unfold keeps. rewrite He'. cbn.
+      now rewrite (proj2 (mem_nat_In x S) Hx).
+    + rewrite (pal_single_seq m m1 Hsm), (pal_single_seq n n1 Hs). auto.
+  - intros x Hx. rewrite Hlen. auto.
+Qed.
+End Restrict.
+
+(* ================================================================ compress_graph *)
+Lemma Forall2_map_eq {A B C} (f : A -> C) (P : A -> B -> Prop) (h : B -> C) l l' :
+  Forall2 P l l' -> (forall a b, P a b -> f a = h b) -> map f l = map h l'.
+Proof. induction 1; intro H1; cbn; auto. f_equal; auto. Qed.
+
+Lemma Forall2_nth_intro {A B} (P : A -> B -> Prop) : forall l l',
+  length l = length l' ->
+  (forall i a b, nth_error l i = Some a -> nth_error l' i = Some b -> P a b) -> Forall2 P l l'.
+Proof.
+  induction l as [|a l IH]; intros [|b l'] Hlen H; try discriminate; constructor.
+  - apply (H 0%nat); reflexivity.
+  - apply IH; [cbn in Hlen; lia|]. intros i x y Hx Hy. apply (H (Datatypes.S i)); auto.
+Qed.
+Lemma Forall2_nth_elim {A B} (P : A -> B -> Prop) l l' i a :
+  Forall2 P l l' -> nth_error l i = Some a -> exists b, nth_error l' i = Some b /\ P a b.
+Proof.
+  intro H. revert i. induction H as [|x y l l' Hxy H IH]; intros [|i] Hi; try discriminate; cbn in *.
+  - injection Hi as <-. eauto.
+  - auto.
+Qed.
+Lemma nth_error_map {A B} (f : A -> B) l i : nth_error (map f l) i = option_map f (nth_error l i).
+Proof. revert i. induction l as [|a l IH]; intros [|i]; cbn; auto. Qed.
+
+Section Final.
+Variable D : Type.
+Variable reduce : D -> D -> D.
+Variable join : D -> D -> bool.
+Variable K : nat.
+Variable stranded : bool.
+Hypothesis join_sym : forall a b, join a b = join b a.
+Local Notation graph := (graph D).
+Local Notation gnode := (gnode D).
+Local Notation rnext := (rnext D join K stranded).
+Local Notation winv := (winv D K stranded).
+Local Notation wnext := (wnext D join K stranded).
+Local Notation survivors := (survivors D).
+Local Notation compress_graph_paths := (compress_graph_paths D reduce join K stranded).
+
+Definition walk_nodes (g1 : graph) (S : list nat) (n : nat) : list (list nat) :=
+  compress nat Nat.eq_dec (wnext g1 S) (seq 0 n) S.
+
+(* [out] is [g2] with every extension that does not resolve (to a node of [valid]) removed *)
+Definition pruned_of (g2 : graph) (valid : option (list nat)) (out : graph) : Prop :=
+  length out = length g2 /\ g_seqs D out = g_seqs D g2 /\
+  forall x n, nth_error g2 x = Some n ->
+    exists e, nth_error out x = Some (n_seq D n, e, n_data D n) /\ e < 256 /\
+      forall d b, In b bases4 -> e_has_ext e (dirb d) b = keeps D K stranded g2 valid x d b.
+
+Lemma survivors_spec (g : graph) censor x :
+  In x (survivors g censor) <-> (x < length g)%nat /\ match censor with Some c => ~ In x c | None => True end.
+Proof.
+  unfold RecompCheck.survivors, initial_avail. destruct censor as [c|].
+  - rewrite filter_In, in_seq, negb_true_iff. split.
+    + intros [H1 H2]. split; [lia|]. intro Hc. apply mem_nat_In in Hc. congruence.
+    + intros [H1 H2]. split; [lia|]. destruct (mem_nat x c) eqn:E; auto. apply mem_nat_In in E. tauto.
+  - rewrite in_seq. split; [intros; split; auto; lia | intros [H _]; lia].
+Qed.
+Lemma survivors_nodup (g : graph) censor : NoDup (survivors g censor).
+Proof.
+  unfold RecompCheck.survivors, initial_avail. destruct censor; [apply NoDup_filter|]; apply seq_NoDup.
+Qed.
+
+Theorem recompress_refines_walk_ (g : graph) censor :
+  rvalid D K stranded g ->
+  exists g1 out r,
+    restrict D K stranded g (survivors g censor) = Some g1 /\ winv g1 (survivors g censor) /\
+    compress_graph_paths g censor = Some (out, map snd r) /\
+    result_ok D reduce K g1 r (walk_nodes g1 (survivors g censor) (length g)) /\
+    pruned_of (map fst r) None out.
+Proof.
+  intro V. set (S := survivors g censor).
+  destruct (fix_exts_spec D K stranded g (Some S)) as (g1 & Hg1 & Hlen & _).
+  assert (HS : forall x, In x S -> (x < length g)%nat) by (intros x Hx; now apply survivors_spec in Hx).
+  pose proof (restrict_winv D K stranded g g1 S V HS Hg1) as W.
+  destruct (rb_loop_spec D reduce join K stranded g1 S W (seq 0 (length g)) S (fun x H => H)) as (r & Hr & Hok).
+  destruct (fix_exts_spec D K stranded (map fst r) None) as (out & Hout & Hp).
+  exists g1, out, r. split; [exact Hg1|]. split; [exact W|]. split; [|split; [exact Hok | exact Hp]].
+  unfold Recompress.compress_graph_paths. fold (survivors g censor). fold S. rewrite Hg1, Hr, Hout. reflexivity.
+Qed.
+
+Lemma result_ok_nodes g1 r nodes : result_ok D reduce K g1 r nodes -> map (map fst) (map snd r) = nodes.
+Proof.
+  intro H. rewrite map_map. rewrite <- (map_id nodes).
+  eapply Forall2_map_eq; [exact H|]. intros a b [Hab _]. exact Hab.
+Qed.
+
+(* C09 node partition: every non-censored input node is used in exactly one result node, no other node is used *)
+Theorem recompress_partition (g : graph) censor out paths :
+  rvalid D K stranded g -> compress_graph_paths g censor = Some (out, paths) ->
+  length out = length paths /\
+  NoDup (concat (map (map fst) paths)) /\
+  forall x, In x (concat (map (map fst) paths)) <->
+            (x < length g)%nat /\ match censor with Some c => ~ In x c | None => True end.
+Proof.
+  intros V H. destruct (recompress_refines_walk_ g censor V) as (g1 & out' & r & Hg1 & W & Hc & Hok & Hp).
+  rewrite Hc in H. injection H as <- <-. rewrite (result_ok_nodes _ _ _ Hok).
+  destruct (compress_partition nat Nat.eq_dec (wnext g1 (survivors g censor))
+              (wnext_sym D join K stranded join_sym g1 _ W) (seq 0 (length g)) (survivors g censor)
+              (survivors_nodup g censor)) as [H1 H2].
+  { intros x Hx. apply survivors_spec in Hx. apply in_seq. lia. }
+  split; [|split; auto].
+  - destruct Hp as [Hl _]. rewrite Hl, !map_length. reflexivity.
+  - intro x. unfold walk_nodes. rewrite H2. apply survivors_spec.
+Qed.
+
+(* C09 maximality: no mergeable link of the restricted input graph leaves a result node *)
+Theorem recompress_maximal_ (g : graph) censor out paths :
+  rvalid D K stranded g -> compress_graph_paths g censor = Some (out, paths) ->
+  exists g1, restrict D K stranded g (survivors g censor) = Some g1 /\
+    forall p, In p paths -> forall x d w t, In x (map fst p) -> rnext g1 x d = Some (w, t) -> In w (map fst p).
+Proof.
+  intros V H. destruct (recompress_refines_walk_ g censor V) as (g1 & out' & r & Hg1 & W & Hc & Hok & Hp).
+  rewrite Hc in H. injection H as <- <-. exists g1. split; auto.
+  intros p Hp' x d w t Hx Hn.
+  assert (HN : In (map fst p) (walk_nodes g1 (survivors g censor) (length g))).
+  { rewrite <- (result_ok_nodes _ _ _ Hok). now apply in_map. }
+  destruct (compress_partition nat Nat.eq_dec (wnext g1 (survivors g censor))
+              (wnext_sym D join K stranded join_sym g1 _ W) (seq 0 (length g)) (survivors g censor)
+              (survivors_nodup g censor)) as [_ H2].
+  { intros y Hy. apply survivors_spec in Hy. apply in_seq. lia. }
+  assert (HxS : In x (survivors g censor)).
+  { apply H2. apply in_concat. exists (map fst p). split; auto. }
+  assert (HwS : In w (survivors g censor)) by (eapply rnext_target; eauto).
+  assert (Hwn : wnext g1 (survivors g censor) x (sd d) = Some (w, sd t)).
+  { unfold RecompressProofs.wnext. rewrite (proj2 (mem_nat_In x _) HxS), ds_sd, Hn. reflexivity. }
+  apply (compress_maximal nat Nat.eq_dec (wnext g1 (survivors g censor)) (wnext_sym D join K stranded join_sym g1 _ W)
+            (survivors g censor) (seq 0 (length g)) (survivors g censor) (survivors_nodup g censor))
+    with (N := map fst p) (x := x) (s := sd d) (t := sd t); auto.
+  - intros y Hy. apply survivors_spec in Hy. apply in_seq. lia.
+  - intros y s z u Hy _ Hz. exact Hz.
+Qed.
+
+(* C09 no dangling extension: holds for whatever compress_graph returns (no hypothesis on the input) *)
+Lemma fix_exts_no_dangling (g2 out : graph) :
+  fix_exts D K stranded g2 None = Some out -> no_dangling D K stranded out.
+Proof.
+  intros Hf i n d b Hn Hb Hh.
+  destruct (fix_exts_spec D K stranded g2 None) as (out' & Ho & Hlen & Hseq & Hsp).
+  assert (out' = out) by congruence. subst out'.
+  assert (Hi : (i < length g2)%nat) by (rewrite <- Hlen; apply nth_error_Some; congruence).
+  destruct (nth_error g2 i) as [n2|] eqn:E2; [|apply nth_error_None in E2; lia].
+  destruct (Hsp i n2 E2) as (e & He & _ & Hk). rewrite Hn in He. injection He as ->.
+  cbn [n_exts n_seq fst snd] in *. rewrite (Hk d b Hb) in Hh. unfold keeps, ext_link in Hh. rewrite E2 in Hh.
+  rewrite (find_link_seqs D K stranded g2 out _ _ Hseq).
+  destruct (e_has_ext (n_exts D n2) (dirb d) b); [|discriminate].
+  destruct (GraphModel.find_link D K stranded g2 _ d); [discriminate|discriminate].
+Qed.
+
+Theorem no_dangling_exts_ (g : graph) censor out paths :
+  compress_graph_paths g censor = Some (out, paths) -> no_dangling D K stranded out.
+Proof.
+  unfold Recompress.compress_graph_paths. destruct (fix_exts D K stranded g _) as [g1|]; [|discriminate].
+  destruct (rb_loop D reduce join K stranded g1 _ _) as [r|]; [|discriminate].
+  destruct (fix_exts D K stranded (map fst r) None) as [o|] eqn:E; [|discriminate].
+  intro H. injection H as <- _. eapply fix_exts_no_dangling; eauto.
+Qed.
+
+(* what every result node is: the spelling of its node path, the fold of the payloads, and extensions among the
+   terminal extensions of the two end nodes (oriented) *)
+Definition node_of_path (g1 : graph) (n : gnode) (p : list (nat * dir)) : Prop :=
+  exists lp seed rp n0, p = assemble lp seed rp /\ built D reduce K g1 n0 lp seed rp /\
+    n_seq D n = n_seq D n0 /\ n_data D n = n_data D n0 /\ n_exts D n < 256 /\
+    forall d b, In b bases4 -> e_has_ext (n_exts D n) (dirb d) b = true -> e_has_ext (n_exts D n0) (dirb d) b = true.
+
+Theorem recompress_nodes (g : graph) censor out paths :
+  rvalid D K stranded g -> compress_graph_paths g censor = Some (out, paths) ->
+  exists g1, restrict D K stranded g (survivors g censor) = Some g1 /\ Forall2 (node_of_path g1) out paths.
+Proof.
+  intros V H. destruct (recompress_refines_walk_ g censor V) as (g1 & out' & r & Hg1 & W & Hc & Hok & Hp).
+  rewrite Hc in H. injection H as <- <-. exists g1. split; auto.
+  destruct Hp as (Hlen & _ & Hsp). apply Forall2_nth_intro.
+  - rewrite Hlen, !map_length. reflexivity.
+  - intros i n p Hn Hpi.
+    destruct (nth_error r i) as [[n0 p0]|] eqn:Er.
+    2:{ rewrite nth_error_map, Er in Hpi. discriminate. }
+    rewrite nth_error_map, Er in Hpi. cbn in Hpi. injection Hpi as <-.
+    destruct (Forall2_nth_elim _ _ _ _ _ Hok Er) as (N & _ & _ & lp & seed & rp & Hp0 & Hb). cbn [fst snd] in *.
+    assert (Hn0 : nth_error (map fst r) i = Some n0) by (rewrite nth_error_map, Er; reflexivity).
+    destruct (Hsp i n0 Hn0) as (e & He & Hlt & Hk). rewrite Hn in He. injection He as ->.
+    exists lp, seed, rp, n0. split; [exact Hp0|]. split; [exact Hb|]. split; [reflexivity|].
+    split; [reflexivity|]. split; [exact Hlt|]. intros d b Hb' Hh. cbn [n_exts fst snd] in Hh.
+    rewrite (Hk d b Hb') in Hh. unfold keeps, ext_link in Hh. rewrite Hn0 in Hh.
+    destruct (e_has_ext (n_exts D n0) (dirb d) b); [reflexivity | discriminate].
+Qed.
+End Final.
